@@ -500,7 +500,10 @@ def directed_families():
     triple = {'generic': False, 'default': None, 'paths': {'plug': 'Mid0'}, 'ghost': False, 'classes': [
         root, cls('Mid0', 'base', 'Root', True), cls('Mid1', 'base', 'Root', True), cls('A', 'plug.a', 'Mid0', False, 'a'),
         cls('B', 'lib.b', 'Mid1', False, 'a'), cls('C', 'lib.c', 'Root', False, 'a', True), cls('D', 'plug.d', 'Mid1', False, 'd')]}
-    return [plain, clash, deep, child, sibling, ghost, triple]
+    inner = {'generic': False, 'default': None, 'paths': {'plug': 'Root'}, 'ghost': False, 'classes': [
+        root, cls('I', 'lib.i', 'Root', 'inner'), cls('A', 'plug.a', 'I', False, 'a'), cls('J', 'plug.j', 'Root', 'inner'),
+        cls('B', 'lib.b', 'Root', False, 'b')]}
+    return [plain, clash, deep, child, sibling, ghost, triple, inner]
 
 
 def acyclic(spec):
@@ -551,7 +554,7 @@ def gen_family_once(rng):
     rng.shuffle(pool)
     unitclasses = []
     for index in range(count):
-        abstract = rng.random() < 0.2
+        abstract = rng.random() < 0.25 and rng.choice([True, True, 'inner'])  # 'inner': abstract only via an inner class
         parents = [c['name'] for c in classes]
         weights = [3 if c['module'] == 'base' else 2 for c in classes]
         parent = rng.choices(parents, weights)[0]
